@@ -103,8 +103,8 @@ int main(int argc, char **argv) {
     h_install_handlers();
     R = h_region(8);
     U = h_region(1);        /* string arguments without a terminator: flush against its inaccessible page */
-    F8 = h_region(1);       /* the format string: its terminator is the last element in front of an inaccessible page */
-    FW = h_region(1);
+    F8 = h_region(2);       /* the format string: its terminator is the last element in front of an inaccessible page */
+    FW = h_region(8);
     NOZ = h_nozone();
     {
         FILE *cin = fdopen(dup(0), "r");
@@ -171,10 +171,17 @@ int main(int argc, char **argv) {
             wide = is_wide(fn);
             scan = is_scan(fn);
             setlocale(LC_ALL, loc ? "C.UTF-8" : "C");
-            fmt8 = F8.rw + F8.rwlen - (nfmt + 1);
-            fmtw = (wchar_t *)(FW.rw + FW.rwlen) - (nfmt + 1);
-            for (i = 0; i < nfmt; i++) { fmt8[i] = (char)fmtv[i]; fmtw[i] = (wchar_t)fmtv[i]; }
-            fmt8[nfmt] = 0; fmtw[nfmt] = 0;
+            {   /* an element 100000 + k stands for a run of k blanks (formats longer than RSIZE_MAX_STR; the event keeps the short form) */
+                long xl = 0, q;
+                for (i = 0; i < nfmt; i++) xl += fmtv[i] >= 100000 ? fmtv[i] - 100000 : 1;
+                fmt8 = F8.rw + F8.rwlen - (xl + 1);
+                fmtw = (wchar_t *)(FW.rw + FW.rwlen) - (xl + 1);
+                for (i = 0, j = 0; i < nfmt; i++) {
+                    if (fmtv[i] >= 100000) for (q = 0; q < fmtv[i] - 100000; q++, j++) { fmt8[j] = ' '; fmtw[j] = L' '; }
+                    else { fmt8[j] = (char)fmtv[i]; fmtw[j] = (wchar_t)fmtv[i]; j++; }
+                }
+                fmt8[xl] = 0; fmtw[xl] = 0;
+            }
             for (i = 0; i < ninp; i++) { inp8[i] = (char)inpv[i]; inpw[i] = (wchar_t)inpv[i]; }
             inp8[ninp] = 0; inpw[ninp] = 0;
             /* target kind */
